@@ -180,10 +180,11 @@ class TheoryOracle(walkers.DagWalker):
         return theory
 
     @walkers.handles(op.RELATIONS)
-    @walkers.handles(op.BOOL_OPERATORS)
+    @walkers.handles(op.BOOL_CONNECTIVES)
     @walkers.handles(op.BV_OPERATORS)
     @walkers.handles(op.STR_OPERATORS -\
-                     set([op.STR_LENGTH, op.STR_INDEXOF, op.STR_TO_INT]))
+                     set([op.STR_LENGTH, op.STR_INDEXOF, op.STR_TO_INT,
+                          op.INT_TO_STR]))
     @walkers.handles(op.ITE, op.ARRAY_SELECT, op.ARRAY_STORE, op.MINUS)
     def walk_combine(self, formula: FNode, args: List[Theory], **kwargs) -> Theory:
         """Combines the current theory value of the children"""
@@ -193,6 +194,15 @@ class TheoryOracle(walkers.DagWalker):
         theory_out = args[0]
         for t in args[1:]:
             theory_out = theory_out.combine(t)
+        return theory_out
+
+    @walkers.handles(op.QUANTIFIERS)
+    def walk_quantifier(self, formula: FNode, args: List[Theory], **kwargs) -> Theory:
+        """Combines the theory of the body with the sorts of the bound variables"""
+        #pylint: disable=unused-argument
+        theory_out = args[0].copy()
+        for v in formula.quantifier_vars():
+            theory_out = theory_out.combine(self._theory_from_type(v.symbol_type()))
         return theory_out
 
     @walkers.handles(op.REAL_CONSTANT, op.BOOL_CONSTANT)
@@ -251,16 +261,24 @@ class TheoryOracle(walkers.DagWalker):
     @walkers.handles([op.STR_LENGTH, op.STR_INDEXOF, op.STR_TO_INT])
     def walk_str_int(self, formula: FNode, args: List[Theory], **kwargs) -> Theory:
         theory_out = self.walk_combine(formula, args, **kwargs)
-        theory_out.integer_arithmetic = True
-        theory_out.integer_difference = True
-        return theory_out
+        return self._add_integers(theory_out)
 
     def walk_bv_tonatural(self, formula: FNode, args: List[Theory], **kwargs) -> Theory:
         #pylint: disable=unused-argument
         """Extends the Theory with Integer."""
-        theory_out = args[0].copy()
-        theory_out.integer_arithmetic = True
-        theory_out.integer_difference = True
+        return self._add_integers(args[0])
+
+    def _add_integers(self, theory: Theory) -> Theory:
+        """Returns a copy of theory extended with the integers.
+
+        The difference-logic restriction is only introduced if the
+        theory had no integer arithmetic before: an argument that is
+        already outside difference logic stays outside.
+        """
+        theory_out = theory.copy()
+        if not theory_out.integer_arithmetic:
+            theory_out.integer_arithmetic = True
+            theory_out.integer_difference = True
         return theory_out
 
     def walk_times(self, formula: FNode, args: List[Theory], **kwargs) -> Theory:
@@ -288,6 +306,7 @@ class TheoryOracle(walkers.DagWalker):
         assert not theory_out.integer_difference
         return theory_out
 
+    @walkers.handles(op.INT_TO_STR)
     def walk_strings(self, formula: FNode, args: List[Theory], **kwargs) -> Theory:
         """Extends the Theory with Strings."""
         #pylint: disable=unused-argument
@@ -317,18 +336,14 @@ class TheoryOracle(walkers.DagWalker):
         theory_out = args[0]
         for t in args[1:]:
             theory_out = theory_out.combine(t)
-        # Check for non-linear
-        left, right = formula.args()
-        if len(left.get_free_variables()) != 0 and \
-           len(right.get_free_variables()) != 0:
+        # Check for non-linear: only the division by a (non-zero)
+        # constant is linear
+        right = formula.arg(1)
+        if len(right.get_free_variables()) != 0:
             theory_out = theory_out.set_linear(False)
-        elif formula.arg(1).is_zero():
+        elif right.is_zero():
             # DivBy0 is non-linear
             theory_out = theory_out.set_linear(False)
-        else:
-            theory_out = theory_out.combine(args[1])
-        return theory_out
-
         # This is  not in DL anymore
         theory_out = theory_out.set_difference_logic(False)
         return theory_out
